@@ -89,7 +89,9 @@ impl Function for DecodeCharset {
 fn decode_charset(value: &[u8], from_charset: &[u8]) -> Resolved {
     let decoder = Encoding::for_label(from_charset).ok_or_else(|| create_error(from_charset))?;
 
-    let (output, _, _) = decoder.decode(value);
+    // Not `decode`: it sniffs a BOM and lets it override the requested charset. Only a BOM
+    // of the requested charset itself is removed.
+    let (output, _) = decoder.decode_with_bom_removal(value);
     Ok(Value::Bytes(output.as_bytes().to_vec().into()))
 }
 
